@@ -56,3 +56,12 @@ Theorem C09_determine_version_is_source : forall caps p,
 Proof. exact determine_version_is_source. Qed.
 
 Print Assumptions C09_determine_version_is_source.
+
+(* ... and the capability test it relies on, Driver.ServerHasCapability as the source has it on this
+   run (a range loop over the server's list), is EXACT membership: for every capability and every
+   list, of any length *)
+From Scrapli Require Import DecideLoops NetconfSrc.
+Theorem C09_server_has_capability_is_source : forall s caps,
+  shc_run s caps = Some (existsb (fun c => beqb c s) caps).
+Proof. exact server_has_capability_is_source. Qed.
+Print Assumptions C09_server_has_capability_is_source.
